@@ -44,7 +44,38 @@ pub struct Scn {
     pub sole_handle: bool,
 }
 
+/// Many keys in flight together (any table inside the layer has to grow while entries are
+/// live), then waiters that join the oldest calls.
+fn gen_many_keys(rng: &mut Rng) -> Scn {
+    let nkeys = rng.range(4, 10) as u32;
+    let mut callers = vec![];
+    for k in 1..=nkeys {
+        callers.push(Caller {
+            start_ms: *rng.pick(&[0u64, 0, 0, 1]),
+            key: k,
+            beh: Behaviour { lat_ms: *rng.pick(&[20u64, 30, 50]), out: if rng.chance(1, 5) { Outcome::Err(0) } else { Outcome::Ok }, yields: 0 },
+            cancel: CancelSpec::Never,
+            hold_ms: 0,
+            drop_unpolled_after_ms: None,
+        });
+    }
+    while callers.len() < 12 {
+        callers.push(Caller {
+            start_ms: *rng.pick(&[5u64, 10, 15]),
+            key: rng.range(1, (nkeys as u64).min(3)) as u32,
+            beh: Behaviour { lat_ms: 5, out: Outcome::Ok, yields: 0 },
+            cancel: CancelSpec::Never,
+            hold_ms: 0,
+            drop_unpolled_after_ms: None,
+        });
+    }
+    Scn { callers, knobs: SchedKnobs::gen(rng, false, 60), owner_dropped: false, sole_handle: false }
+}
+
 pub fn gen(rng: &mut Rng) -> Scn {
+    if rng.chance(1, 12) {
+        return gen_many_keys(rng);
+    }
     let n = rng.range(2, 10) as usize;
     let nkeys = rng.range(1, 3) as u32;
     let faulty = rng.chance(2, 3);
@@ -88,7 +119,7 @@ pub fn valid(s: &Scn) -> bool {
     }
     s.callers.len() >= 1
         && s.callers.len() <= 12
-        && s.callers.iter().all(|c| c.start_ms <= 300 && c.key % 100 >= 1 && c.key % 100 <= 4 && c.key / 100 <= 1 && c.beh.lat_ms <= 200 && c.beh.yields <= 4 && c.hold_ms <= 100 && c.drop_unpolled_after_ms.map(|d| d <= 50).unwrap_or(true))
+        && s.callers.iter().all(|c| c.start_ms <= 300 && c.key % 100 >= 1 && c.key % 100 <= 16 && c.key / 100 <= 1 && c.beh.lat_ms <= 200 && c.beh.yields <= 4 && c.hold_ms <= 100 && c.drop_unpolled_after_ms.map(|d| d <= 50).unwrap_or(true))
         && s.knobs.jumps.len() <= 3
         && s.knobs.jumps.iter().all(|j| j.0 <= 300 && j.1 <= 200)
         && !(s.owner_dropped && s.callers.iter().any(|c| c.key >= 100))
@@ -97,10 +128,16 @@ pub fn valid(s: &Scn) -> bool {
 /// Key with a deliberately coarse `Hash` (all keys collide) and an exact `Eq`: legal, and an
 /// implementation that identifies keys by their hash alone merges different keys.
 #[derive(Clone, Debug, PartialEq, Eq)]
-struct CKey(u32);
+struct CKey(u32, bool);
 impl std::hash::Hash for CKey {
     fn hash<H: std::hash::Hasher>(&self, state: &mut H) {
-        (self.0 % 1).hash(state)
+        // .1: an ordinary, exact hash instead (scenarios with many keys: a table that mislays
+        // entries when it grows would not show if all keys shared one hash)
+        if self.1 {
+            self.0.hash(state)
+        } else {
+            0u32.hash(state)
+        }
     }
 }
 
@@ -115,7 +152,8 @@ pub fn run(s: &Scn, ctx: &mut RunCtx) -> RunOutput {
                 w.script.by_req.insert(((c.key / 100) as u8, i as u32), vec![c.beh]);
             }
         });
-        let layer = CoalesceLayer::new(|r: &Req| CKey(r.key % 100));
+        let exact_hash = scn.callers.iter().any(|c| c.key % 100 > 4);
+        let layer = CoalesceLayer::new(move |r: &Req| CKey(r.key % 100, exact_hash));
         let base = layer.layer(SimInner::new(0));
         let base_b = layer.layer(SimInner::new(1));
         let sole = scn.sole_handle;
